@@ -59,16 +59,18 @@ ASSUMPTIONS = [
     'is not part of the check; the cursors of find_rewind are kept and read again (the value of a '
     're-read is compared with the first read only while no write happened in between: a cursor is '
     'not required to be a snapshot)',
-    'a Cursor keeps the projection dict it was given BY REFERENCE and reads it when it computes '
-    'its results (first iteration, clone(), sort()), as pymongo does: editing the dict after '
-    'find() returned changes what the cursor gives (evidence: cursor_reads_projection_lazily). '
-    'The filter is copied when find() is called.  The model takes the projection as it is when '
-    'the results are computed; the harness does not scribble on the projection of a cursor it '
-    'keeps',
-    'the cache of a cursor is observed through the private attribute Cursor._results',
-    'aggregate stages $sample, $out, $lookup, $graphLookup, $facet, $bucket are not generated '
-    '(C16 covers the pipeline argument); bulk_write and the deprecated entry points are not '
-    'generated',
+    'a Cursor keeps the SORT list it was given by reference and reads it when it computes its '
+    'results (first iteration, clone()): editing the list after find() returned changes the '
+    'order the cursor gives (evidence: cursor_reads_sort_lazily).  The harness builds the sort '
+    'list inside the call and does not keep it.  The filter and (since b829c96) the projection '
+    'are copied when find() is called',
+    'what a cursor keeps is observed through the private attributes Cursor._results, _spec and '
+    '_projection',
+    'aggregate stages $sample, $out, $facet, $bucket are not generated (C16 covers the pipeline '
+    'argument); $lookup / $graphLookup join the collection with itself; bulk_write and the '
+    'deprecated entry points are not generated',
+    'one history in six runs on a tz_aware client (everything it reads is rebuilt once more: the '
+    'model is asked for the table of such a client)',
     'copy.deepcopy is modelled without its memo (inputs are trees; the harness checks on the '
     'real heap that no object occurs twice in the store)',
     'object identity of scalars (str, int, datetime, ObjectId: immutable) is not tracked',
@@ -204,6 +206,13 @@ def undo_edits(done):
 
 
 def cache_of(cur):
+    """what a cursor keeps: its cached results and its copies of the query"""
+    r = getattr(cur, '_results', None)
+    return (r if isinstance(r, list) else []) + [getattr(cur, '_spec', None),
+                                                 getattr(cur, '_projection', None)]
+
+
+def results_of(cur):
     r = getattr(cur, '_results', None)
     return r if isinstance(r, list) else []
 
@@ -273,8 +282,26 @@ def pipeline_literals(pipeline):
     return out
 
 
+def added_item_values(v, parts, crossed=False):
+    """the values found at the dotted path `parts` below v where the path went through an array
+    (what `$addFields` / `$set` put into the items of that array)"""
+    if not parts:
+        if crossed:
+            yield v
+        return
+    if isinstance(v, (list, tuple)):
+        for item in v:
+            for y in added_item_values(item, parts, True):
+                yield y
+    elif isinstance(v, dict) and parts[0] in v:
+        for y in added_item_values(v[parts[0]], parts[1:], crossed):
+            yield y
+
+
 def agg_pos(pipeline):
     names = [k for st in pipeline if isinstance(st, dict) for k in st]
+    if '$lookup' in names or '$graphLookup' in names:
+        return 'aggLookup'
     if '$unwind' in names:
         return 'aggUnwind'
     if '$addFields' in names or '$set' in names:
@@ -310,11 +337,12 @@ def sort_arg(s):
 
 
 class HistoryRun(object):
-    def __init__(self, history, oids, known):
+    def __init__(self, history, oids, known, tz=False):
         self.history = history
         self.oids = oids
         self.known = known
-        self.client = mongomock.MongoClient()
+        self.tz = tz
+        self.client = mongomock.MongoClient(tz_aware=True) if tz else mongomock.MongoClient()
         self.coll = self.client.db.c
         self.held = []            # everything handed over so far (kept alive on purpose)
         self.held_ids = {}        # id(container) -> (step, role)
@@ -411,6 +439,9 @@ class HistoryRun(object):
             self.cursors = self.cursors[-2:] + [rec]
             c.info['cursor'] = rec
             c.info['filled'] = True
+            # the query the cursor keeps: its own copies of the filter and the projection
+            c.info['kept'] = [('cursorSpec', f, getattr(cur, '_spec', None)),
+                              ('cursorProj', p, getattr(cur, '_projection', None))]
             # the caller edits what it got, then asks the cursor again
             edits = []
             skip = set(id(o) for _, d in self.raw() for o, _ in containers(d))
@@ -518,7 +549,8 @@ class HistoryRun(object):
         def differs(what, got, want):
             self.stats['cursor re-read compared with the first read'] += 1
             if not same(got, want):
-                self.events.append(('cursor-cache-alias', c.i, {
+                self.events.append(('cursor-clone-differs-from-first-read' if 'clone' in what
+                                    else 'cursor-cache-alias', c.i, {
                     'cursor_of_step': rec['step'], 'action': what,
                     'first_read': pretty(want), 'read_again': pretty(got)}))
 
@@ -546,7 +578,13 @@ class HistoryRun(object):
                     if unchanged and act[1] < len(exp):
                         differs('cursor[%d]' % act[1], d, exp[act[1]])
                 elif kind == 'clone':
-                    got = list(cur.clone())
+                    cl = cur.clone()
+                    c.info.setdefault('kept', []).extend([
+                        ('cloneSpec', getattr(cur, '_spec', None), getattr(cl, '_spec', None)),
+                        ('cloneProj', getattr(cur, '_projection', None),
+                         getattr(cl, '_projection', None))])
+                    rec.setdefault('clones', []).append(cl)     # kept alive: ids stay unique
+                    got = list(cl)
                     for d in got:
                         outs.append(('cursorOut', d))
                         c.results.append(('doc_again', d))
@@ -705,9 +743,13 @@ class HistoryRun(object):
                 self.events.append(('cursor-cache-aliases-held-object', c.i, {
                     'cursor_of_step': rec['step']}))
         rec = c.info.get('cursor')
+        for pos, source, kept in c.info.get('kept', []):
+            # argument -> cursor (cursor -> clone): the cursor's copy of the query is its own
+            if kept is not None:
+                self.inst(c, pos, kept, bool(idset(kept) & idset(source)))
         if rec is not None:
-            cached = cache_of(rec['cur'])
-            cids = idset(cached)
+            cached = results_of(rec['cur'])
+            cids = idset(cache_of(rec['cur']))
             if c.info.get('filled') and not rec['projected']:
                 # store -> cache leg alone (the documents of an unprojected cursor)
                 for d in cached:
@@ -722,6 +764,26 @@ class HistoryRun(object):
             pos = agg_pos(c.args[0][1])
             for d in docs:
                 self.inst(c, pos, d, observe(d))
+            # $addFields / $set (last stage) with a dotted name through an array: every item has
+            # a value object of its own
+            pl = c.args[0][1]
+            last_stage = pl[-1] if isinstance(pl, list) and pl and isinstance(pl[-1], dict) else {}
+            for name, body in last_stage.items():
+                if name not in ('$addFields', '$set') or not isinstance(body, dict):
+                    continue
+                pids = idset(pl)
+                for f, v in body.items():
+                    parts = f.split('.')
+                    if len(parts) < 2:
+                        continue
+                    lit = isinstance(v, list) or (isinstance(v, dict) and '$literal' in v)
+                    for d in docs:
+                        seen_items = sidset | pids
+                        for x in added_item_values(d.get(parts[0]) if isinstance(d, dict)
+                                                   else None, parts[1:]):
+                            self.inst(c, 'aggAddItemLit' if lit else 'aggAddItemVal', x,
+                                      bool(idset(x) & seen_items), exact=False, detail=f)
+                            seen_items |= idset(x)
             rids = set()
             for d in docs:
                 rids |= idset(d)
@@ -899,9 +961,6 @@ class HistoryRun(object):
         before_find = self.read_all()
         n = 0
         for role, obj in handed:
-            if c.k == 'find_rewind' and role == 'projection':
-                # the cursor that is kept reads this dict again (clone): see ASSUMPTIONS
-                continue
             n += scribble(obj, sidset)
         self.stats['containers scribbled'] += n
         post2 = self.snapshot()
@@ -1036,7 +1095,8 @@ class Judge(object):
                                           'detail': key})
         # round 2: every position instance -> alias / fresh according to the model
         qs = [(run, x) for run in runs for x in run.instances]
-        lines = ['c07 %s %s %s' % (x.get('cmd', 'flow'), x['pos'], x['wire']) for run, x in qs]
+        lines = ['c07 %s%s %s %s' % ('tz ' if run.tz else '', x.get('cmd', 'flow'), x['pos'],
+                                     x['wire']) for run, x in qs]
         answers = wire.run_driver(lines) if lines else []
         for (run, x), ans in zip(qs, answers):
             t = ans.split()
@@ -1106,7 +1166,8 @@ def run(ctx, proof, driver_ok):
                 h, oids, g = gen_history(rng)
             except wire.Unencodable:
                 continue
-            run_ = HistoryRun(h, oids, known).run()
+            run_ = HistoryRun(h, oids, known, tz=rng.random() < 1 / 6.0).run()
+            stats['histories on a tz_aware client'] += run_.tz
             runs.append(run_)
             steps += len(h)
             stats.update(run_.stats)
@@ -1147,7 +1208,7 @@ def run(ctx, proof, driver_ok):
         'model_operations': judge.op_rows,
         'events_on_the_real_heap': dict(judge.events),
         'witnesses_of_repaired_findings': regress,
-        'cursor_reads_projection_lazily': lazy_projection_probe(),
+        'cursor_reads_sort_lazily': lazy_sort_probe(),
         'projection_flows_model_raises_python_returns': dict(judge.proj_model_errors),
         'checks': {k: v for k, v in stats.items() if not k.startswith(('op:', 'inst:'))},
         'operation_histogram': {k[3:]: v for k, v in stats.items() if k.startswith('op:')},
@@ -1166,14 +1227,14 @@ def run_one(ctx, history, oids, known=None):
     return r, judge
 
 
-def lazy_projection_probe():
-    """not judged, recorded: does a cursor read its projection argument after find() returned?"""
+def lazy_sort_probe():
+    """not judged, recorded: does a cursor read its sort argument after find() returned?"""
     c = mongomock.MongoClient().db.c
-    c.insert_one({'_id': 1, 'a': 1, 'b': 2})
-    p = {'a': 1}
-    cur = c.find({}, p)
-    p['a'] = 0
-    return list(cur) != [{'_id': 1, 'a': 1}]
+    c.insert_many([{'_id': 1, 'a': 2}, {'_id': 2, 'a': 1}])
+    s = [('a', 1)]
+    cur = c.find({}, sort=s)
+    s[0] = ('a', -1)
+    return [d['_id'] for d in cur] != [2, 1]
 
 
 def regression(ctx):
@@ -1231,6 +1292,15 @@ def consequence(name):
         r = list(c.aggregate(p))
         r[0]['q']['z'] = 'changed by the caller'
         return p != [{'$addFields': {'q': {'$literal': {'z': 1}}}}] or r[1]['q'] != {'z': 1}
+    if name == 'cursor-projection-by-reference':
+        c.insert_one({'_id': 1, 'a': 1, 'b': 2})
+        p = {'a': 1}
+        cur = c.find({}, p)
+        p['a'] = 0
+        first = list(cur)
+        p.clear()
+        p['b'] = 1
+        return first != [{'_id': 1, 'a': 1}] or list(cur.clone()) != [{'_id': 1, 'a': 1}]
     if name == 'cursor-cache-alias':
         c.insert_one({'_id': 1, 'a': [1]})
         cur = c.find({})
